@@ -263,6 +263,44 @@ def buildTraceAt (x0 y0 lv : Nat) (ts : List (Int × Int × Int)) : Except Err (
       | .error e => .error e
       | .ok (t', b) => .ok (t', st.2 ++ [b])) (RTree.new x0 y0 lv, [])
 
+/-! ### histories on ONE tree object: `add_core` calls interleaved with read-outs -/
+
+/-- one call on a `RegionCoreTree` object -/
+inductive HOp where
+  | add (x y p : Int)      -- `t.add_core(x, y, p)`
+  | read                   -- `list(t.get_regions_and_coremasks())`
+  deriving Repr, DecidableEq
+
+/-- what the call returned -/
+inductive HRes where
+  | added (b : Bool)
+  | pairs (l : List (Nat × Nat))
+  deriving Repr, DecidableEq
+
+/-- a read-out traverses the tree as it is NOW and leaves it unchanged (the object keeps no other state) -/
+def histStep (d : Nat) (st : RTree × List HRes) (op : HOp) : Except Err (RTree × List HRes) :=
+  match op with
+  | .add x y p =>
+    if x < 0 ∨ y < 0 ∨ p < 0 then .error .valueError
+    else match addCore d st.1 x.toNat y.toNat p.toNat with
+      | .error e => .error e
+      | .ok (t', b) => .ok (t', st.2 ++ [.added b])
+  | .read => .ok (st.1, st.2 ++ [.pairs (emit d st.1)])
+
+/-- a whole history on `RegionCoreTree(x0, y0, lv)`: the final tree and the result of every call -/
+def runHistory (x0 y0 lv : Nat) (ops : List HOp) : Except Err (RTree × List HRes) :=
+  ops.foldlM (histStep (4 - lv)) (RTree.new x0 y0 lv, [])
+
+def asHOp (j : Json) : R HOp := do
+  match ← asArr j with
+  | [a, b, c] => pure (.add (← asInt a) (← asInt b) (← asInt c))
+  | [] => pure .read
+  | _ => .error "expected [x, y, p] or []"
+
+def hresToJson : HRes → Json
+  | .added b => Json.bool b
+  | .pairs l => jPairs l
+
 def handle (op : String) (j : Json) : R Json := do
   match op with
   | "compress" =>
@@ -284,6 +322,11 @@ def handle (op : String) (j : Json) : R Json := do
     | .ok (t, bs) =>
       pure (jOk (Json.mkObj [("tree", treeToJson t), ("returns", jList (bs.map Json.bool)),
         ("yield", jPairs (emit (4 - lv) t))]))
+    | .error e => pure (jErr (errName e))
+  | "history" =>
+    let ops ← (← arr j "ops").mapM asHOp
+    match runHistory (← nat j "x") (← nat j "y") (← nat j "level") ops with
+    | .ok (t, rs) => pure (jOk (Json.mkObj [("tree", treeToJson t), ("results", jList (rs.map hresToJson))]))
     | .error e => pure (jErr (errName e))
   | "region" =>
     match regionForChip (← nat j "x") (← nat j "y") (← nat j "level") with
